@@ -14,9 +14,28 @@ import os
 CAP_WINDOW = range(56, 68)      # number of distinct media types sent beforehand (capacity is 64)
 
 
+_STATIC = {}
+
+
+def static_dir():
+    """A directory with two small files for the static route (made once per run, removed at exit)."""
+    if 'dir' not in _STATIC:
+        import atexit
+        import shutil
+        import tempfile
+        d = tempfile.mkdtemp(prefix='c19-static-')
+        for name, text in (('one.txt', 'first file\n'), ('two.txt', 'second file, longer\n')):
+            with open(os.path.join(d, name), 'w') as f:
+                f.write(text)
+            os.utime(os.path.join(d, name), (1700000000, 1700000000))
+        pid = os.getpid()
+        atexit.register(lambda: os.getpid() == pid and shutil.rmtree(d, ignore_errors=True))
+        _STATIC['dir'] = d
+    return _STATIC['dir']
+
+
 def build_app():
     import falcon
-    import uuid as _uuid
 
     class Ctx:
         def process_request(self, req, resp):
@@ -77,6 +96,16 @@ def build_app():
     app.add_route('/c/{d:dt("%Y-%m-%d")}', Day())
     app.add_route('/u/{u:uuid}/{v:float}', Ident())
     app.add_route('/p/{p:path}', Tail())
+
+    def sink(req, resp, **kw):
+        resp.media = {'sink': req.path, 'q': req.get_param('q'), 'tag': req.context.tag}
+
+    def sink2(req, resp, **kw):
+        resp.media = {'sink2': req.path, 'tag': req.context.tag}
+
+    app.add_sink(sink, '/sink')
+    app.add_static_route('/static', static_dir())
+    app.add_sink(sink2, '/zz')
     return app
 
 
@@ -108,13 +137,27 @@ def request_pool():
         ('PUT /b/2 (405)', Req('PUT', b'/b/2', b'', [('X-Tag', 't18')])),
         ('POST new type', Req('POST', b'/a/5', b'', [('X-Tag', 't19'), ('Content-Type', 'application/json; fresh=1')],
                               b'{"fresh": 1}')),
+        # values with many escapes take the decoder's slow path; form bodies and paths too
+        ('GET escapes A', Req('GET', b'/a/3', b'q=%41%4C%49%43%45%2D%53%45%43%52%45%54%2D%54%4F%4B%45%4E&n=1',
+                              [('X-Tag', 't20')])),
+        ('GET escapes B', Req('GET', b'/a/3', b'q=%62%6F%62%2B%70%75%62%6C%69%63%2B%76%61%6C%75%65+x&l=%31%2C%32%2C%33%2C%34%2C%35%2C%36',
+                              [('X-Tag', 't21')])),
+        ('POST form escapes', Req('POST', b'/a/5', b'', [('X-Tag', 't22'), ('Content-Type', 'application/x-www-form-urlencoded')],
+                                  b'user=%63%61%72%6F%6C%2D%70%72%69%76%61%74%65&pin=%39%39%39%39%39%39%39%39')),
+        ('GET /p escapes', Req('GET', b'/p/%C3%A9%C3%A8%C3%AA%C3%AB/%E2%82%AC%E2%82%AC', b'', [('X-Tag', 't23')])),
+        ('GET /sink/x', Req('GET', b'/sink/x', b'q=s', [('X-Tag', 't24')])),
+        ('GET /zz/y', Req('GET', b'/zz/y', b'', [('X-Tag', 't25')])),
+        ('GET /static/one', Req('GET', b'/static/one.txt', b'', [('X-Tag', 't26')])),
+        ('GET /static/two', Req('GET', b'/static/two.txt', b'', [('X-Tag', 't27'), ('Range', 'bytes=2-5')])),
+        ('GET /nowhere (404)', Req('GET', b'/nowhere', b'', [('X-Tag', 't28')])),
     ]
 
 
 # ordered pairs (preempted request, request that runs in the gap)
 PAIRS = [(3, 4), (4, 3), (5, 6), (6, 5), (5, 7), (7, 5), (2, 10), (10, 19), (19, 10), (0, 1), (1, 0), (2, 3), (3, 2),
          (11, 12), (12, 11), (13, 14), (14, 13), (8, 9), (9, 8), (15, 13), (16, 0), (17, 18), (18, 17), (0, 5),
-         (10, 2), (2, 19)]
+         (10, 2), (2, 19), (20, 21), (21, 20), (20, 22), (22, 21), (23, 20), (21, 23), (24, 25), (25, 24), (24, 26),
+         (26, 24), (26, 27), (27, 26), (28, 24), (24, 28), (26, 28), (25, 27)]
 PRESSURE_PAIRS = [(10, 19), (10, 2), (2, 19), (19, 10)]
 
 
@@ -129,7 +172,7 @@ def pressure_reqs(n):
                 b'{"v": %d}' % i) for i in range(n)]
 
 
-def run_pair(pool, i, j, prologue, k, k2=None):
+def run_pair(pool, i, j, prologue, k, k2=None, record=False):
     """One schedule on a fresh app.  Returns (results, line counts, preemption points, infeasible)."""
     from engine.drivers import wsgi_call
     from engine import widesched
@@ -137,11 +180,14 @@ def run_pair(pool, i, j, prologue, k, k2=None):
     for r in prologue:
         wsgi_call(app, r)
     w = widesched.Wide(os.environ.get('FALCON_ROOT', '/repo'), 2)
+    w.record = record
     if hasattr(app._router, '_compile_lock'):
         app._router._compile_lock = widesched.WideLock(w)
     fns = [lambda: proj(wsgi_call(app, pool[i][1])), lambda: proj(wsgi_call(app, pool[j][1]))]
     sched = [(0, k), (1, k2), (0, None), (1, None)]
     res, counts, where = w.run(fns, sched)
+    if record:
+        where = [where[0], w.files[0]]
     return res, counts, where, w.infeasible
 
 
@@ -203,6 +249,9 @@ def leg(ctx):
         if isinstance(out, str):
             raise MachineryError('wide scheduler: %s' % out)
         res, counts, where, infeasible = out
+        if k is None:
+            modules[job[:3]] = where[1]
+            where = [None, None]
         stats['schedules'] += 1
         stats['infeasible'] += 1 if infeasible else 0
         case = {'kind': 'wide', 'requests': [names[i], names[j]], 'prologue': pname, 'k': k, 'k2': k2,
@@ -221,6 +270,7 @@ def leg(ctx):
     levels = list(CAP_WINDOW) if not ctx.quick else [60, 61, 62, 63, 64, 65, 66]
     base += [(i, j, 'pressure-%d' % lv, None, None) for (i, j) in PRESSURE_PAIRS[:ctx.pick(2, 4)] for lv in levels]
     lines = {}
+    modules = {}
     for job, out in zip(base, fan_out(base)):
         counts = judge(job, out)
         lines[job[:3]] = counts
@@ -228,9 +278,12 @@ def leg(ctx):
     # pass 2: one preemption before every k-th falcon line of the first request
     jobs = []
     for n, (i, j, pname, _, _) in enumerate(base):
-        every = {'first-requests': ctx.pick(2, 1), 'warm': 1}.get(pname, 1)
-        off = (ctx.seed + n) % every
-        jobs += [(i, j, pname, k, None) for k in range(1 + off, lines[(i, j, pname)][0] + 1, every)]
+        # quick: the lazy router compilation (about 3/4 of a first request's lines) has its own legs at finer grain
+        thin = ctx.pick(8, 1)
+        off = (ctx.seed + n) % thin
+        mods = modules[(i, j, pname)]
+        jobs += [(i, j, pname, k, None) for k in range(1, lines[(i, j, pname)][0] + 1)
+                 if mods[k - 1] != 'routing/compiled.py' or k % thin == off]
     # pass 3: two preemptions, sampled
     for _ in range(ctx.pick(400, 20000)):
         i, j, pname, _, _ = ctx.rng.choice(base)
@@ -251,7 +304,7 @@ def _job(job):
     pool, prologue = _JOB_ENV
     i, j, pname, k, k2 = job
     try:
-        return run_pair(pool, i, j, prologue(pname), k, k2)
+        return run_pair(pool, i, j, prologue(pname), k, k2, record=(k is None))
     except RuntimeError as ex:
         return 'RuntimeError: %s' % ex
 
